@@ -90,3 +90,26 @@ func MergeSub(o *core.Options, r *core.Report, bin, prop, label, what string) {
 		r.Violate(v.Signature, v.Desc, v)
 	}
 }
+
+// ReplaySub hands a replay file that holds a scheduler scenario (scenario + schedule) to the sub-binary that
+// recorded it; it reports whether the file was of that kind and the sub-binary's exit code.
+func ReplaySub(o *core.Options, bin string) (bool, int) {
+	var v struct {
+		Schedule []int           `json:"schedule"`
+		Scenario json.RawMessage `json:"scenario"`
+	}
+	if err := core.LoadReplay(o.Replay, &v); err != nil || v.Scenario == nil || v.Schedule == nil {
+		return false, 0
+	}
+	cmd := exec.Command(core.BinDir()+"/"+bin, o.Prop, "--replay", o.Replay)
+	cmd.Env = os.Environ()
+	cmd.Stdout, cmd.Stderr = os.Stdout, os.Stderr
+	if err := cmd.Run(); err != nil {
+		if ee, ok := err.(*exec.ExitError); ok {
+			return true, ee.ExitCode()
+		}
+		fmt.Println("replay:", err)
+		return true, 2
+	}
+	return true, 0
+}
